@@ -177,7 +177,7 @@ impl CalibrationExpansion {
     /// in the process of calibration expansion (for example, a `DECLARE`).
     pub(crate) fn remove_target_index(&mut self, target_index: InstructionIndex) {
         // Adjust the start of the range if the target index is before the range
-        if self.range.start >= target_index {
+        if self.range.start > target_index {
             self.range.start = self.range.start.map(|v| v.saturating_sub(1));
         }
 
